@@ -8,7 +8,7 @@
 (*   C09  static figures >= what the VM measures / the size model says     *)
 (* Bag shape: records are fanned out over TLC workers (two-level Next).    *)
 (***************************************************************************)
-EXTENDS Verify, Satisfier, ExtData, Json, IOUtils, SequencesExt, FiniteSetsExt
+EXTENDS Verify, Satisfier, ExtData, PlanSize, Json, IOUtils, SequencesExt, FiniteSetsExt
 
 ASSUME TLCSet(1, ndJsonDeserialize(IOEnv.TRACE))
 Rec == TLCGet(1)
@@ -83,6 +83,14 @@ JudgeRes(ev, j) ==
             \/ Report("C09", "max_weight", ev, j, <<r.real_weight, ev.st.max_weight>>))
         /\ (inp.script_len = ev.st.ms.script_size
             \/ Report("C09", "script_size", ev, j, <<inp.script_len, ev.st.ms.script_size>>))
+        \* L2 conformance: the announced sizes are the sums PlanSize.tla computes over the stack
+        /\ ("plan" \notin DOMAIN r \/
+            (r.plan.wit_size = PlanWitnessSize(inp.stack, ev.wrap, ev.st.ms.script_size, 0)
+             /\ r.plan.ssig_size = PlanScriptSigSize(inp.stack, ev.wrap, ev.st.ms.script_size)
+             /\ r.plan.weight = PlanWeight(inp.stack, ev.wrap, ev.st.ms.script_size, 0))
+            \/ Report("INFO", "drift_l2_plansize", ev, j,
+                       <<ev.wrap, r.plan.wit_size, PlanWitnessSize(inp.stack, ev.wrap, ev.st.ms.script_size, 0),
+                         r.plan.ssig_size, PlanScriptSigSize(inp.stack, ev.wrap, ev.st.ms.script_size)>>))
         /\ ("plan" \notin DOMAIN r \/
             /\ (~segwit \/ r.plan.wit_size >= r.real_wit_bytes + 1 \/ Report("C09", "plan_wit_size", ev, j, <<r.real_wit_bytes + 1, r.plan.wit_size>>))
             /\ (r.plan.ssig_size >= r.real_ssig_bytes + 1 \/ Report("C09", "plan_ssig_size", ev, j, <<r.real_ssig_bytes + 1, r.plan.ssig_size>>))))
